@@ -227,4 +227,23 @@ PROPS = {
         "quick": {"runs": [{"test": "^TestC12$", "shards": 16, "checks": 100, "timeout": 600}]},
         "thorough": {"runs": [{"test": "^TestC12$", "shards": 16, "checks": 2500, "timeout": 3400}]},
     },
+    "C13": {
+        "title": "Presence converges and user IDs address one live user",
+        "level": "exploration",
+        "rule": "rapid state machine over an administrator and up to 6 clients: connect in the 1.2.3 flow (name in login) or the 1.5 flow (login, "
+                "later agreed with name/icon/options/auto-reply), set-client-user-info (name incl. 505/600-byte names, 2- or 4-byte icon, options "
+                "present or absent), administrator set-user toggling the disconnect privilege (admin flag), disconnect, kick, private message "
+                "to a live or unused id, get-client-info and invitation addressed to an id, and fast-forward of the production client registry "
+                "by {1,100,30000,65000,65530,65536,70000} add/delete cycles; TestC13Wrap keeps two users connected, moves the counter to 10 before "
+                "the 16-bit wrap and continues; every client folds the 301/302 notifications it receives into the user list it fetched; after "
+                "every step: registry size == live connections, ids distinct, each folded roster == fresh user list restricted to completed "
+                "logins (id, name, icon, flags as integers), id-addressed requests reach exactly the holder, refuse-messages and auto-reply "
+                "honoured; non-trivial = a change or departure after another client fetched its list; distinct = hash(history)",
+        "assumptions": ["each step settles before the next (the statement quantifies over histories; delivery order of two notifications to one client is not constrained)",
+                        "users logged in but not yet agreed are unconstrained in other clients' rosters"],
+        "quick": {"runs": [{"test": "^TestC13$", "shards": 12, "checks": 60, "timeout": 900},
+                           {"test": "^TestC13Wrap$", "shards": 4, "checks": 25, "timeout": 900}]},
+        "thorough": {"runs": [{"test": "^TestC13$", "shards": 12, "checks": 2000, "timeout": 3400},
+                              {"test": "^TestC13Wrap$", "shards": 4, "checks": 500, "timeout": 3400}]},
+    },
 }
